@@ -10,7 +10,10 @@ used by `Model/Chan.lean`, C16)
   which `tools/extract.py` regenerates from counter.rs on every check run.  The kernels tell the model
   *what the new count is*, *whether `task.wake()` is executed* and *whether `task.register(..)` is
   executed*; the model supplies the `LocalWaker` semantics of those two effects.
-* `Sys` is a counter together with its live guards and `Counter` handles (clones share the inner).
+* `Sys` is a counter together with its live guards and `Counter` handles (clones share the inner;
+  a handle can be dropped while guards live on).  `Counter::get` is never refused: the counter gates
+  through `available` only, so histories go above the capacity.  `Debug` of a handle / guard prints
+  `count` and `capacity` (`Op.debug`, `Op.debugGuard`).
 * `Spec` is a kernel-free reference ("number of live guards", "waker most recently answered
   *unavailable* and not woken since") that the theorems of `Props/C17.lean` compare the model with.
 -/
@@ -89,15 +92,21 @@ def Counter.available (c : Counter) (w : WakerId) : Counter × Bool :=
   else
     (c, (Src.ucAvailable c.count c.capacity false).1)
 
-/-- a counter, its live guards (ids in creation order) and the number of `Counter` handles -/
+/-- a counter, its live guards (ids in creation order) and its `Counter` handles: `handles` ids have
+been handed out (`Counter::new` = 0, then one per `clone`), the ones in `deadHandles` were dropped.
+Handles and guards all own the same `Rc<CounterInner>`: dropping a handle changes nothing else. -/
 structure Sys where
   ctr : Counter
   guards : List Nat := []
   nextGuard : Nat := 0
   handles : Nat := 1
+  deadHandles : List Nat := []
 deriving Repr, DecidableEq
 
 def init (cap : Nat) : Sys := { ctr := { count := 0, capacity := cap } }
+
+/-- `h` names a `Counter` handle that has been created and not dropped -/
+def Sys.hasHandle (s : Sys) (h : Nat) : Bool := decide (h < s.handles) && !s.deadHandles.contains h
 
 inductive Op where
   | acquire (h : Nat)                 -- `handles[h].get()`
@@ -105,6 +114,9 @@ inductive Op where
   | available (h : Nat) (w : WakerId) -- `handles[h].available(cx)` with the waker `w`
   | clone (h : Nat)                   -- `handles[h].clone()`
   | total (h : Nat)                   -- `handles[h].total()`
+  | dropHandle (h : Nat)              -- `drop(handles[h])` (guards stay alive)
+  | debug (h : Nat)                   -- `format!("{:?}", handles[h])`
+  | debugGuard (g : Nat)              -- `format!("{:?}", guards[g])`
 deriving Repr, DecidableEq
 
 inductive Obs where
@@ -113,12 +125,14 @@ inductive Obs where
   | avail (b : Bool)
   | handle (id : Nat)
   | total (n : Nat)
+  | handleDropped
+  | debug (guard : Bool) (count capacity : Nat)   -- the `count` / `capacity` fields `Debug` prints
 deriving Repr, DecidableEq
 
-/-- one operation; `none` = not applicable (`bad-op`: unknown handle, guard not live) -/
+/-- one operation; `none` = not applicable (`bad-op`: unknown or dropped handle, guard not live) -/
 def step (s : Sys) : Op → Option (Sys × Obs)
   | .acquire h =>
-    if h < s.handles then
+    if s.hasHandle h then
       some ({ s with ctr := s.ctr.inc, guards := s.guards ++ [s.nextGuard], nextGuard := s.nextGuard + 1 },
             .guard s.nextGuard)
     else none
@@ -127,13 +141,19 @@ def step (s : Sys) : Op → Option (Sys × Obs)
       some ({ s with ctr := s.ctr.dec.1, guards := s.guards.erase g }, .dropped s.ctr.dec.2)
     else none
   | .available h w =>
-    if h < s.handles then
+    if s.hasHandle h then
       some ({ s with ctr := (s.ctr.available w).1 }, .avail (s.ctr.available w).2)
     else none
   | .clone h =>
-    if h < s.handles then some ({ s with handles := s.handles + 1 }, .handle s.handles) else none
+    if s.hasHandle h then some ({ s with handles := s.handles + 1 }, .handle s.handles) else none
   | .total h =>
-    if h < s.handles then some (s, .total s.ctr.count) else none
+    if s.hasHandle h then some (s, .total s.ctr.count) else none
+  | .dropHandle h =>
+    if s.hasHandle h then some ({ s with deadHandles := h :: s.deadHandles }, .handleDropped) else none
+  | .debug h =>
+    if s.hasHandle h then some (s, .debug false s.ctr.count s.ctr.capacity) else none
+  | .debugGuard g =>
+    if g ∈ s.guards then some (s, .debug true s.ctr.count s.ctr.capacity) else none
 
 /-- a history of applicable operations with the observations it produced -/
 def run (s : Sys) : List Op → Option (Sys × List Obs)
@@ -159,6 +179,9 @@ def Spec.step (cap : Nat) (sp : Spec) : Op → Spec
   | .available _ w => { sp with pend := if sp.live < cap then sp.pend else some w }
   | .clone _ => sp
   | .total _ => sp
+  | .dropHandle _ => sp
+  | .debug _ => sp
+  | .debugGuard _ => sp
 
 def specOf (cap : Nat) (ops : List Op) : Spec := ops.foldl (Spec.step cap) {}
 
